@@ -50,6 +50,21 @@ theorem half_le_halfRoot {n : Nat} (hn : n ≠ 0) : 1 / 2 ≤ halfRoot n := by
       _ = 1/2 := by norm_num
   exact (pow_le_pow_iff_left₀ (by norm_num) (halfRoot_pos n).le hn).1 h1
 
+/-- `K_2 = 2^(5/2)·√5 ≈ 12.65 ≤ 18` (used in the non-vacuity examples) -/
+theorem Kn_two_le : Kn 2 * 1 ≤ 18 := by
+  rw [Kn_eq, mul_one]
+  have h1 : halfRoot 2 ≤ 1 := by
+    have h := halfRoot_pow (n := 2) (by omega)
+    have hp := halfRoot_pos 2
+    nlinarith
+  have h2 : Real.sqrt ((2:ℕ) + 3) ≤ 9 / 4 := by
+    rw [Real.sqrt_le_iff]; constructor <;> norm_num
+  have h3 : (0:ℝ) ≤ Real.sqrt ((2:ℕ) + 3) := Real.sqrt_nonneg _
+  have h5 : halfRoot 2 * Real.sqrt ((2:ℕ) + 3) ≤ 1 * (9 / 4) := mul_le_mul h1 h2 h3 zero_le_one
+  calc 8 * halfRoot 2 * Real.sqrt ((2:ℕ) + 3) = 8 * (halfRoot 2 * Real.sqrt ((2:ℕ) + 3)) := by ring
+    _ ≤ 8 * (1 * (9 / 4)) := mul_le_mul_of_nonneg_left h5 (by norm_num)
+    _ = 18 := by norm_num
+
 /-- power mean: `((a+b)/2)^n ≤ (a^n + b^n)/2` for `a, b ≥ 0` -/
 theorem pow_mean_le {a b : ℝ} (ha : 0 ≤ a) (hb : 0 ≤ b) (n : Nat) :
     ((a + b) / 2)^n ≤ (a^n + b^n) / 2 := by
